@@ -1,13 +1,15 @@
 #!/bin/bash
 # usage: seed_run.sh <ID> <k> [tier]  -- applies a seeded change to /repo, runs the property's check, undoes the change
 id=$1; k=$2; tier=${3:-quick}; d=/tmp/seed_out/$id/m$k
-[ -d /verif/seeded/$id/m$k ] && d=/verif/seeded/$id/m$k
+# k may carry a round prefix (r2m1): then the kept copy under /verif/seeded is used
+tag=m$k
+case $k in r*) d=/verif/seeded/$id/$k; tag=$k;; *) [ -d /verif/seeded/$id/m$k ] && d=/verif/seeded/$id/m$k;; esac
 cd /repo || exit 2
 if [ -n "$(git status --porcelain --untracked-files=no)" ]; then echo "/repo not clean"; exit 2; fi
 pf=$d/patch.diff; [ -f $d/patch_rebased.diff ] && pf=$d/patch_rebased.diff
 git apply $pf 2>/dev/null || git apply --3way $pf 2>/dev/null || { echo "$id m$k patch does not apply to current /repo"; git reset -q --hard HEAD; exit 3; }
 cd /verif; s=$(date +%s)
-timeout 3600 ./check $id --tier $tier > /verif/.build/logs/seed_${id}_m${k}_$tier.out 2>&1; rc=$?
+timeout 3600 ./check $id --tier $tier > /verif/.build/logs/seed_${id}_${tag}_$tier.out 2>&1; rc=$?
 e=$(date +%s)
 git -C /repo checkout -q -- .
-echo "$id m$k tier=$tier rc=$rc $((e-s))s $(grep -c '^VIOLATION' /verif/.build/logs/seed_${id}_m${k}_$tier.out) violation line(s) $(grep -c '^INCONCLUSIVE' /verif/.build/logs/seed_${id}_m${k}_$tier.out) inconclusive"
+echo "$id $tag tier=$tier rc=$rc $((e-s))s $(grep -c '^VIOLATION' /verif/.build/logs/seed_${id}_${tag}_$tier.out) violation line(s) $(grep -c '^INCONCLUSIVE' /verif/.build/logs/seed_${id}_${tag}_$tier.out) inconclusive"
